@@ -161,6 +161,13 @@ def build_env(source, name, cfg_opts, arg_opts, roots, scratch):
             params["cache_mb"] = cfg_opts["cache"]
         if cfg_opts.get("ro") is not None:
             lines.append("      readonly: %s" % ("true" if cfg_opts["ro"] else "false"))
+        if params and _n[0] % 3 == 0:
+            # the template carries its values as defaults and is loaded without any parameter
+            text = "\n".join(lines) + "\n"
+            for k, v in params.items():
+                text = text.replace("{{ %s }}" % k, "{{ %s | default(%r) }}" % (k, v))
+            open(path, "w").write(text)
+            return Environment(name="e", base_dir=scratch, repos=[ConfigurationRepository.from_file(path)])
         open(path, "w").write("\n".join(lines) + "\n")
         if params:
             # the same template was rendered before, in this process, with other values for the same parameters
@@ -197,7 +204,10 @@ def check_storage(case, scratch):
     os.environ["HOME"] = os.path.join(scratch, "homedir")
     name = "c18_%d" % _n[0]
     _n[0] += 1
-    env = build_env(case["source"], name, case["cfg"], case["args"], roots, scratch)
+    try:
+        env = build_env(case["source"], name, case["cfg"], case["args"], roots, scratch)
+    except Exception as e:          # noqa: a configuration of the documented form must load
+        return [dict(clause="configuration-loads", source=case["source"], options=case["cfg"], error="%s: %s" % (type(e).__name__, str(e)[:200]))], [], {}
     obs = behaviour(env, name, roots, 7)
     ms = model_sig(case["cfg"], case["args"], ["home", "A", "B", "C"])
     diffs, fails = [], []
@@ -254,13 +264,17 @@ def check_storage(case, scratch):
     return fails, diffs, obs
 
 
-def check_order(rng, scratch):
+def check_order(rng, scratch, force=None):
     """repositories in priority order with duplicated cluster names; which one wins is observed by where files appear"""
     from twosigma.memento import Environment, ConfigurationRepository, FunctionCluster
     from twosigma.memento.storage_filesystem import FilesystemStorageBackend
     from twosigma.memento.runner_null import NullRunnerBackend
     names = ["ca", "cb", "cc"]
     nrepo = rng.randint(1, 4)
+    samename = rng.random() < 0.4
+    if force:
+        nrepo, samename = force[0], force[1]
+    rname = lambda ri: "r%d" % (ri % 2 if samename else ri)        # repositories may share a name: priority is by position only
     repos, roots, ident, spec = [], {}, {}, []
     cid = 0
     for ri in range(nrepo):
@@ -282,12 +296,12 @@ def check_order(rng, scratch):
                 lab = "D%d" % cid
                 roots[lab] = os.path.join(scratch, lab)
                 decoys[nm] = {"name": nm, "storage": {"type": "filesystem", "path": roots[lab]}}
-            repos.append(ConfigurationRepository(config={"name": "zz", "clusters": decoys}, name="r%d" % ri, clusters=clusters))
+            repos.append(ConfigurationRepository(config={"name": "zz", "clusters": decoys}, name=rname(ri), clusters=clusters))
         else:
-            repos.append(ConfigurationRepository(name="r%d" % ri, clusters=clusters))
+            repos.append(ConfigurationRepository(name=rname(ri), clusters=clusters))
         spec.append(",".join(rs) or "-")
     env = Environment(name="e", base_dir=scratch, repos=repos)
-    how = rng.choice(["as-built", "prepend", "append", "dump"])
+    how = force[2] if force else rng.choice(["as-built", "prepend", "append", "dump"])
     if how == "prepend" and len(repos) > 1:
         env = Environment(name="e", base_dir=scratch, repos=repos[1:])
         for nm in names:
@@ -416,10 +430,12 @@ def main(chk, replay=None):
                     p = chk.violation({"what": "configuration: %s (%s)" % (f["clause"], json.dumps({k: v for k, v in f.items() if k in ("option", "source", "options")})),
                                        "class": {"clause": f["clause"]}, "case": case, "observed": f})
                     reported += bool(p)
-        for i in range(12 if quick else 150):
+        forced = [(3, True, "prepend"), (3, True, "append"), (4, True, "prepend"), (4, True, "append")]
+        for i in range((12 if quick else 150) + 2 * len(forced)):
             scratch = tempfile.mkdtemp(prefix="c18o_", dir=chk.tmpdir())
             try:
-                fails, diffs, info = check_order(rng, scratch)
+                # (first: repositories that share a name, one of them added to the front / the end afterwards)
+                fails, diffs, info = check_order(rng, scratch, forced[i % len(forced)] if i < 2 * len(forced) else None)
             finally:
                 shutil.rmtree(scratch, ignore_errors=True)
             chk.case(["order", info], sample=dict(order=info))
